@@ -28,6 +28,7 @@ type StoreCfg struct {
 	Strategy    string   `json:"Strategy"`
 	EvictNeeded bool     `json:"EvictNeeded"`
 	Collide     bool     `json:"Collide"`
+	Hash        string   `json:"Hash"`   // HashInj | HashColl: the model's hash function
 	Jitter      float64  `json:"Jitter"` // -1 disabled, 0 library default
 	UnitSec     int      `json:"UnitSec"`
 	Kinds       []string `json:"Kinds"`
@@ -128,6 +129,7 @@ type storeRun struct {
 	u      time.Duration
 	kb     KeyBuf
 	obs    []stepJ
+	plain  bool // control run: fresh key slices, no scrambling
 }
 
 func (r *storeRun) project(stepIdx int) ([]entJ, string) {
@@ -201,8 +203,12 @@ func (r *storeRun) exec(st stepJ) repJ {
 
 	var key []byte
 	if op.K != "" {
-		key = r.kb.Get(r.km.ByModel[op.K])
-		defer r.kb.Scramble()
+		if r.plain {
+			key = append([]byte(nil), r.km.ByModel[op.K]...)
+		} else {
+			key = r.kb.Get(r.km.ByModel[op.K])
+			defer r.kb.Scramble()
+		}
 	}
 
 	switch op.Name {
@@ -575,6 +581,39 @@ func TestStoreReplay(t *testing.T) {
 			v, okN := r.run(t, bi, b)
 			res.Evaluations++
 			res.Steps += okN
+
+			// Control for key isolation (model hash injective): the same behaviour with keys that do not collide and a
+			// fresh, never reused key slice per call.  If it fails at the same step, collisions / buffer reuse are not
+			// the cause: the mismatch belongs to the sequential map semantics (C07).
+			if v != nil && v.Prop == "C09" && cfg.Hash != "HashColl" {
+				km2, err := NewKeyMap(seed+int64(bi)+7777, false, cfg.Keys)
+				if err == nil {
+					r2 := &storeRun{cfg: cfg, km: km2, u: cfg.unit(), stat: NewStatRec(), plain: true}
+					mk2 := func(kind string) Backend { return NewBackend(kind, cfg.cacheConfig("store", r2.stat, &r2.needed)) }
+					r2.be = mk2(kind)
+
+					var spares2 []Backend
+
+					nk := kind
+					for _, st := range b {
+						if st.Op.Name == "Relay" {
+							nk = relayNext[nk]
+							spares2 = append(spares2, mk2(nk))
+						}
+					}
+
+					r2.mk = func(string) Backend {
+						s := spares2[0]
+						spares2 = spares2[1:]
+
+						return s
+					}
+
+					if v2, _ := r2.run(t, bi, b); v2 != nil && v2.Step == v.Step {
+						v.Prop = "C07"
+					}
+				}
+			}
 
 			if v != nil {
 				keys := map[string]string{}
